@@ -7,6 +7,7 @@ import (
 	"os"
 
 	"verifharness/comb"
+	"verifharness/helpers"
 	"verifharness/rec"
 	"verifharness/subj"
 )
@@ -69,4 +70,36 @@ func cmdScen(args []string) {
 		os.Exit(2)
 	}
 	emit("REPORT", map[string]any{"engine": "scen", "mode": *mode, "events": w.N, "by_comb": w.ByComb})
+}
+
+// cmdHelpers records vectors of the pure helpers (C19) for validation by spec/helpers/Helpers.tla.
+func cmdHelpers(args []string) {
+	fs := flag.NewFlagSet("helpers", flag.ExitOnError)
+	out := fs.String("out", "helpers.ndjson", "output")
+	maxLen := fs.Int("maxlen", 4, "maximal slice length (exhaustive over {1,2,3})")
+	nrand := fs.Int("random", 200, "random longer slices")
+	seeds := fs.Int("seeds", 3, "seeds per (n,k) for sampling")
+	chi := fs.Int("chi", 20000, "trials of the auxiliary chi-square test (0 = off)")
+	fs.Parse(args)
+	w, err := helpers.NewW(*out)
+	if err != nil {
+		fmt.Println(err)
+		os.Exit(2)
+	}
+	rng := rand.New(rand.NewSource(seed()))
+	helpers.Slices(w, helpers.Inputs(*maxLen, *nrand, rng))
+	helpers.Sorts(w, *maxLen)
+	helpers.Maps(w)
+	helpers.Maths(w)
+	helpers.Errors(w)
+	helpers.Rands(w, rng, *seeds)
+	if err := w.Close(); err != nil {
+		fmt.Println(err)
+		os.Exit(2)
+	}
+	rep := map[string]any{"engine": "helpers", "events": w.N, "by_fn": w.ByFn}
+	if *chi > 0 {
+		rep["chi_square"] = helpers.ChiAll(rng, *chi)
+	}
+	emit("REPORT", rep)
 }
